@@ -39,63 +39,71 @@ impl Read for FragReader {
 
 pub struct FrameObs {
     pub json: Value,
+    /// the frame breaks what the properties state (structure, bound, content, offsets, checksum)
     pub violations: Vec<String>,
+    /// the frame differs from the as-built model only (block split, header layout choices): conformance drift, no alarm
+    pub drift: Vec<String>,
 }
 
 /// All checks on one emitted frame. `events` are the encoder events recorded while it was produced.
 pub fn check_frame(input: &[u8], frame: &[u8], level_fastest: bool, window: u64, enc_events: &[verif::Event]) -> FrameObs {
     let mut v: Vec<String> = vec![];
+    let mut dr: Vec<String> = vec![];
     let n = input.len();
     let mut obs = json!({"n": n, "flen": frame.len()});
     // ---- structure (independent walker) ----
     let lay = match walk_frame(frame) {
         Ok(l) => l,
         Err(e) => {
-            v.push(format!("frame is not well formed: {e}"));
-            return FrameObs { json: obs, violations: v };
+            v.push(format!("[wf] frame is not well formed: {e}"));
+            return FrameObs { json: obs, violations: v, drift: dr };
         }
     };
     let hdr = lay["hdr"].as_u64().unwrap() as usize;
     let blocks = lay["blocks"].as_array().unwrap();
     let flen = lay["len"].as_u64().unwrap() as usize;
     if flen != frame.len() {
-        v.push(format!("{} bytes follow the frame (final block and checksum end at {flen})", frame.len() - flen));
+        v.push(format!("[wf] {} bytes follow the frame (final block and checksum end at {flen})", frame.len() - flen));
     }
     if !lay["cks"].as_bool().unwrap() {
-        v.push("the checksum flag is not set".into());
+        v.push("[cks] the checksum flag is not set".into());
     } else if frame.len() >= 4 {
         let stored = u32::from_le_bytes(frame[flen - 4..flen].try_into().unwrap());
         if stored != xxh64(input, 0) as u32 {
-            v.push(format!("trailer {stored:08x} is not the low 32 bits of XXH64(input) {:08x}", xxh64(input, 0) as u32));
+            v.push(format!("[cks] trailer {stored:08x} is not the low 32 bits of XXH64(input) {:08x}", xxh64(input, 0) as u32));
         }
     }
-    if lay["single"].as_bool().unwrap() || lay["dict_id"].as_u64().unwrap() != 0 {
-        v.push("unexpected single-segment flag or dictionary id".into());
+    if lay["dict_id"].as_u64().unwrap() != 0 {
+        v.push("[wf] the frame asks for a dictionary".into());
+    }
+    if lay["single"].as_bool().unwrap() {
+        dr.push("single-segment frame".into());
     }
     let declared_win = lay["win"].as_u64().unwrap();
     if declared_win < window {
-        v.push(format!("declared window {declared_win} is smaller than the matcher's window {window}"));
+        dr.push(format!("declared window {declared_win} is smaller than the matcher's window {window}"));
     }
     let expect_blocks = if n == 0 { 1 } else { n / BLOCK + 1 };
     if blocks.len() != expect_blocks {
-        v.push(format!("{} blocks for {} input bytes, expected {}", blocks.len(), n, expect_blocks));
+        dr.push(format!("{} blocks for {} input bytes, the as-built split has {}", blocks.len(), n, expect_blocks));
     }
     for (i, b) in blocks.iter().enumerate() {
         let last = b["last"].as_bool().unwrap();
         if last != (i + 1 == blocks.len()) {
-            v.push(format!("block {i}: last flag {last}"));
+            v.push(format!("[wf] block {i}: last flag {last}"));
         }
         if b["size"].as_u64().unwrap() as usize > BLOCK {
-            v.push(format!("block {i}: size field {} above 128 KiB", b["size"]));
+            v.push(format!("[wf] block {i}: size field {} above 128 KiB", b["size"]));
         }
         let ty = b["type"].as_u64().unwrap();
         if !level_fastest && ty != 0 {
-            v.push(format!("block {i}: type {ty} at level Uncompressed"));
+            dr.push(format!("block {i}: type {ty} at level Uncompressed"));
         }
     }
-    let bound = n + hdr + 3 * blocks.len() + 4;
+    // the stated bound: frame header, three bytes per 128 KiB block, an optional empty final block, the checksum
+    let bound = n + hdr + 3 * ((n + BLOCK - 1) / BLOCK + 1) + 4;
     if frame.len() > bound {
-        v.push(format!("frame has {} bytes, more than input + framing overhead = {bound}", frame.len()));
+        v.push(format!("[bound] frame has {} bytes, more than input + framing overhead = {bound}", frame.len()));
     }
     obs["blocks"] = json!(blocks.iter().map(|b| json!([b["type"], b["size"], b["lit_type"]])).collect::<Vec<_>>());
     obs["hdr"] = json!(hdr);
@@ -109,11 +117,11 @@ pub fn check_frame(input: &[u8], frame: &[u8], level_fastest: bool, window: u64,
     let evs = verif::take();
     verif::set_mask(0);
     match r {
-        Err(p) => v.push(format!("ruzstd decoder panicked: {}", panic_msg(p))),
-        Ok(Err(e)) => v.push(format!("ruzstd cannot decode the frame: {e}")),
+        Err(p) => v.push(format!("[dec] ruzstd decoder panicked: {}", panic_msg(p))),
+        Ok(Err(e)) => v.push(format!("[dec] ruzstd cannot decode the frame: {e}")),
         Ok(Ok(())) => {
             if out != input {
-                v.push("ruzstd decodes the frame to different bytes".into());
+                v.push("[dec] ruzstd decodes the frame to different bytes".into());
             }
         }
     }
@@ -123,6 +131,7 @@ pub fn check_frame(input: &[u8], frame: &[u8], level_fastest: bool, window: u64,
     let mut bi = 0usize;
     let mut nseq = 0u64;
     let mut max_off = 0u64;
+    let mut regen: Vec<u64> = vec![];
     for e in &evs {
         match e.kind {
             "seq" => {
@@ -131,19 +140,20 @@ pub fn check_frame(input: &[u8], frame: &[u8], level_fastest: bool, window: u64,
                 let before_match = produced + in_block + ll;
                 max_off = max_off.max(actual);
                 if actual > before_match || actual > declared_win {
-                    v.push(format!("sequence {nseq}: offset {actual} exceeds the data produced so far ({before_match}) or the window ({declared_win})"));
+                    v.push(format!("[wf] sequence {nseq}: offset {actual} exceeds the data produced so far ({before_match}) or the window ({declared_win})"));
                 }
                 in_block += ll + ml;
             }
             "block" => {
                 let d = e.args[3];
                 if d > BLOCK as u64 {
-                    v.push(format!("block {bi} regenerates {d} bytes"));
+                    v.push(format!("[wf] block {bi} regenerates {d} bytes"));
                 }
                 let want = if (bi + 1) * BLOCK <= n { BLOCK } else { n.saturating_sub(bi * BLOCK) } as u64;
                 if d != want {
-                    v.push(format!("block {bi} regenerates {d} bytes, expected {want}"));
+                    dr.push(format!("block {bi} regenerates {d} bytes, the as-built split has {want}"));
                 }
+                regen.push(d);
                 produced += d;
                 in_block = 0;
                 bi += 1;
@@ -151,14 +161,15 @@ pub fn check_frame(input: &[u8], frame: &[u8], level_fastest: bool, window: u64,
             _ => {}
         }
     }
+    obs["regen"] = json!(regen);
     obs["sequences"] = json!(nseq);
     obs["max_offset"] = json!(max_off);
     // ---- decode with libzstd ----
     match zstd::decode_all(frame) {
-        Err(e) => v.push(format!("libzstd cannot decode the frame: {e}")),
+        Err(e) => v.push(format!("[dec] libzstd cannot decode the frame: {e}")),
         Ok(o) => {
             if o != input {
-                v.push("libzstd decodes the frame to different bytes".into());
+                v.push("[dec] libzstd decodes the frame to different bytes".into());
             }
         }
     }
@@ -170,7 +181,8 @@ pub fn check_frame(input: &[u8], frame: &[u8], level_fastest: bool, window: u64,
         .collect();
     obs["enc"] = json!(dec_ev);
     v.truncate(6);
-    FrameObs { json: obs, violations: v }
+    dr.truncate(6);
+    FrameObs { json: obs, violations: v, drift: dr }
 }
 
 /// encexec <programs.ndjson> <report.json> [--obs <observations.ndjson>]
@@ -180,7 +192,8 @@ pub fn encexec(args: &[String]) {
     quiet_panics();
     let f = std::io::BufReader::new(std::fs::File::open(&args[0]).unwrap());
     let mut obsw = arg_after(args, "--obs").map(|p| std::io::BufWriter::new(std::fs::File::create(p).unwrap()));
-    let (mut nprog, mut nframes, mut bad) = (0u64, 0u64, 0u64);
+    let (mut nprog, mut nframes, mut bad, mut drifted) = (0u64, 0u64, 0u64, 0u64);
+    let mut drift_ex: Vec<Value> = vec![];
     let mut mism: Vec<Value> = vec![];
     let mut samples: Vec<Value> = vec![];
     let mut decisions = std::collections::BTreeMap::<String, u64>::new();
@@ -211,13 +224,19 @@ pub fn encexec(args: &[String]) {
             let mut obs = json!({});
             match r {
                 Err(p) => {
-                    viol.push(format!("compress() panicked: {}", panic_msg(p)));
+                    viol.push(format!("[panic] compress() panicked: {}", panic_msg(p)));
                     failed = true;
                 }
                 Ok(()) => {
                     let frame = comp.take_drain().unwrap();
                     let fo = check_frame(&input, &frame, fastest, if fastest { BLOCK as u64 } else { 0 }, &evs);
                     viol = fo.violations;
+                    if !fo.drift.is_empty() {
+                        drifted += 1;
+                        if drift_ex.len() < 3 {
+                            drift_ex.push(json!({"program": prog, "frame_index": fi, "drift": fo.drift}));
+                        }
+                    }
                     obs = fo.json;
                     for b in obs["blocks"].as_array().cloned().unwrap_or_default() {
                         *decisions.entry(format!("type{}_lit{}", b[0], b[2])).or_insert(0) += 1;
@@ -233,7 +252,7 @@ pub fn encexec(args: &[String]) {
             }
             if !viol.is_empty() {
                 bad += 1;
-                if mism.len() < 15 {
+                if mism.len() < 60 {
                     mism.push(json!({"program": prog, "frame_index": fi, "errors": viol}));
                 }
             }
@@ -248,7 +267,8 @@ pub fn encexec(args: &[String]) {
     if let Some(mut w) = obsw {
         w.flush().unwrap();
     }
-    write_json(&args[1], &json!({"programs": nprog, "frames": nframes, "mismatches": bad, "first": mism, "samples": samples, "block_kinds": decisions}));
+    write_json(&args[1], &json!({"programs": nprog, "frames": nframes, "mismatches": bad, "first": mism, "samples": samples, "block_kinds": decisions,
+        "drifted_frames": drifted, "drift_examples": drift_ex}));
 }
 
 // ---------------------------------------------------------------------------------------------
@@ -308,7 +328,8 @@ pub fn encgraph(args: &[String]) {
     let mut tw = std::io::BufWriter::new(std::fs::File::create(&args[2]).unwrap());
     let seed: u64 = args[3].parse().unwrap();
     let stride: usize = args[4].parse().unwrap();
-    let (mut nprog, mut nframes, mut bad, mut nev) = (0u64, 0u64, 0u64, 0u64);
+    let (mut nprog, mut nframes, mut bad, mut nev, mut drifted) = (0u64, 0u64, 0u64, 0u64, 0u64);
+    let mut drift_ex: Vec<Value> = vec![];
     let mut mism: Vec<Value> = vec![];
     let mut samples: Vec<Value> = vec![];
     let mut seen = std::collections::BTreeMap::<String, u64>::new();
@@ -370,6 +391,7 @@ pub fn encgraph(args: &[String]) {
         }
         let mut comp: FrameCompressor<FragReader, Vec<u8>, MatchGeneratorDriver> = FrameCompressor::new(CompressionLevel::Fastest);
         let mut recs: Vec<Value> = vec![json!({"ev": "new"})];
+        let mut untraced = false;
         for (fi, fr) in frames.iter().enumerate() {
             nframes += 1;
             comp.set_compression_level(if fr.fastest { CompressionLevel::Fastest } else { CompressionLevel::Uncompressed });
@@ -382,11 +404,21 @@ pub fn encgraph(args: &[String]) {
             verif::set_mask(0);
             let mut viol: Vec<String> = vec![];
             match r {
-                Err(p) => viol.push(format!("compress() panicked: {}", panic_msg(p))),
+                Err(p) => viol.push(format!("[panic] compress() panicked: {}", panic_msg(p))),
                 Ok(()) => {
                     let frame = comp.take_drain().unwrap();
                     let fo = check_frame(&fr.data, &frame, fr.fastest, if fr.fastest { BLOCK as u64 } else { 0 }, &evs);
                     viol = fo.violations;
+                    if !fo.drift.is_empty() {
+                        // the frame is not split / laid out like the as-built model: nothing to bind the trace to; the
+                        // property-level checks above have been applied, the rest of the program is not traced
+                        drifted += 1;
+                        if drift_ex.len() < 3 {
+                            drift_ex.push(json!({"program": prog.iter().map(|s| json!([s["op"], s["args"]])).collect::<Vec<_>>(), "frame_index": fi, "drift": fo.drift}));
+                        }
+                        untraced = true;
+                    }
+                    if !untraced {
                     // trace records: one per emitted block, decisions bound from the encoder events
                     recs.push(json!({"ev": "begin", "level": if fr.fastest { "F" } else { "U" }}));
                     let mut ei = evs.iter().filter(|e| e.kind.starts_with("enc_")).peekable();
@@ -422,11 +454,12 @@ pub fn encgraph(args: &[String]) {
                                 "wanted": fr.wanted.get(bi).cloned().unwrap_or(json!(["none", false]))}));
                         }
                     }
+                    }
                 }
             }
             if !viol.is_empty() {
                 bad += 1;
-                if mism.len() < 15 {
+                if mism.len() < 60 {
                     let path = format!("{}.input_{}_{}.bin", args[1], li, fi);
                     std::fs::write(&path, &fr.data).ok();
                     mism.push(json!({"program": prog.iter().map(|s| json!([s["op"], s["args"]])).collect::<Vec<_>>(), "frame_index": fi, "errors": viol, "input_file": path,
@@ -445,5 +478,6 @@ pub fn encgraph(args: &[String]) {
         }
     }
     tw.flush().unwrap();
-    write_json(&args[1], &json!({"programs": nprog, "frames": nframes, "mismatches": bad, "first": mism, "samples": samples, "observed_decisions": seen, "trace_events": nev}));
+    write_json(&args[1], &json!({"programs": nprog, "frames": nframes, "mismatches": bad, "first": mism, "samples": samples, "observed_decisions": seen, "trace_events": nev,
+        "drifted_frames": drifted, "drift_examples": drift_ex}));
 }
